@@ -106,7 +106,9 @@ func runProxy(t *testing.T, r *rep.R) {
 	// "swap": the other edition under a new version; "swap-samever": the other edition published without touching the
 	// version field; "swap-nover" / "good-nover": editions that carry no version at all (the field is optional)
 	seqs := [][]string{{"good"}, {"bad"}, {"bad", "bad"}, {"good", "bad"}, {"bad", "good"}, {"good", "good"}, {"bad", "good", "bad"}, {"good", "bad", "good"},
-		{"swap"}, {"swap-samever"}, {"swap", "bad"}, {"bad", "swap-samever"}, {"swap-samever", "good"}, {"swap", "good-samever"}, {"nover:swap-nover"}, {"nover:swap-nover", "good-nover"}, {"nover:good-nover", "swap-nover", "bad"}}
+		{"swap"}, {"swap-samever"}, {"swap", "bad"}, {"bad", "swap-samever"}, {"swap-samever", "good"}, {"swap", "good-samever"}, {"nover:swap-nover"}, {"nover:swap-nover", "good-nover"}, {"nover:good-nover", "swap-nover", "bad"},
+		// "slow:": building the distributor for that edition takes 25 minutes while further editions arrive every 10: updates queue up behind it
+		{"slow:good", "swap", "good"}, {"slow:swap", "good", "swap"}, {"slow:good", "bad", "swap"}, {"slow:swap", "swap-samever", "good", "bad"}}
 	for _, pol := range []submission.CTPolicyType{submission.AppleCTPolicy, submission.ChromeCTPolicy} {
 		for _, sq := range seqs {
 			pol, sq := pol, sq
@@ -123,7 +125,11 @@ func runProxy(t *testing.T, r *rep.R) {
 						return pxLog{url: l.URL, mu: &mu, roots: &roots, asked: &asked, subs: &subs}, nil
 					}
 					inner := submission.GetDistributorBuilder(pol, lcb, nil)
+					slow := map[string]bool{}
 					db := func(ll *loglist3.LogList) (*submission.Distributor, error) {
+						if slow[ll.Version] {
+							time.Sleep(25 * time.Minute)
+						}
 						if strings.HasPrefix(ll.Version, "bad") {
 							return nil, errors.New("this log list cannot be used (scripted)")
 						}
@@ -137,6 +143,10 @@ func runProxy(t *testing.T, r *rep.R) {
 					final := "std" // the edition of the last usable list
 					for i, k := range sq {
 						k = strings.TrimPrefix(k, "nover:")
+						if strings.HasPrefix(k, "slow:") {
+							k = strings.TrimPrefix(k, "slow:")
+							slow[fmt.Sprintf("%s-%d", k, i+1)] = true
+						}
 						content := "std"
 						if strings.HasPrefix(k, "swap") {
 							content = "swap"
